@@ -43,8 +43,8 @@ type nbOp struct {
 	target      **dkv.DB
 	targetAlias string
 	mode        int
-	release chan struct{}
-	asked   *int
+	release     chan struct{}
+	asked       *int
 }
 
 func (n *nbOp) NeedsTable(ctx context.Context, uri string) (bool, error) {
@@ -95,7 +95,7 @@ func stripAnyAlias(uri string) string {
 }
 
 func (f *aliasFS) New(path string) storage.File { return f.inner.New(path) }
-func (f *aliasFS) Copy(a, b string) error      { return f.inner.Copy(a, b) }
+func (f *aliasFS) Copy(a, b string) error       { return f.inner.Copy(a, b) }
 func (f *aliasFS) Open(path string) storage.File {
 	raw, aliased := f.strip(path)
 	if !aliased {
@@ -137,6 +137,9 @@ func kgKey(kg int) string { return string([]byte{byte(kg >> 8), byte(kg)}) + "k"
 
 type nparams struct {
 	depth, n, groups int
+	// redeployedTwice fixes the configuration to: the old operator had been restored from its
+	// checkpoint before and is redeployed as op0 in the same process, every neighbour answers
+	redeployedTwice bool
 }
 
 // gcBarrierTimeout is gcBarrier that gives up when the cleanup goroutine is stuck in a
@@ -231,11 +234,21 @@ func neighbors(c *mc.Ctx) {
 	// where did the old operator go? 0: its process is gone (its objects are never collected);
 	// 1: it was redeployed as new operator 0 in the same process (its database object is
 	// dropped, and operator 0 shares the process-wide file bookkeeping with it)
-	sameProcess := c.Choose(2) == 1
+	sameProcess := p.redeployedTwice || c.Choose(2) == 1
 	if sameProcess {
 		oldDB = nil
 	}
 	defer runtime.KeepAlive(oldDB)
+	// had the old operator itself been restored from that checkpoint before (as the only operator
+	// of its job, owning every key group)? Then the process holds a generation of table objects
+	// loaded from the checkpoint document whose ownership check answers "exclusively mine"
+	// without asking anyone; they become garbage when the operator is redeployed as op0.
+	var prevGen *dkv.DB
+	if sameProcess && (p.redeployedTwice || c.Choose(2) == 1) {
+		full := partitioning.KeyGroupRange{Start: 0, End: p.groups}
+		prevGen = openNew(o, root.WithWorkingDir(base+"/a"), operator.VerifNewOperatorPartition(full, nil, nil), hA.h)
+	}
+	hadPrevGen := prevGen != nil
 	ranges := partitioning.NewKeySpace(p.groups, p.n).KeyGroupRanges()
 	ops := make([]*opState, p.n)
 	dbs := make([]*dkv.DB, p.n)
@@ -256,7 +269,10 @@ func neighbors(c *mc.Ctx) {
 			if j == i {
 				continue
 			}
-			mode := c.Choose(3)
+			mode := ansReal
+			if !p.redeployedTwice {
+				mode = c.Choose(3)
+			}
 			modes = append(modes, fmt.Sprintf("op%d sees op%d: %s", i, j, ansName[mode]))
 			nr = append(nr, ranges[j])
 			no = append(no, &nbOp{target: &dbs[j], targetAlias: fmt.Sprintf("@op%d", j), mode: mode, release: release, asked: &asked})
@@ -272,7 +288,9 @@ func neighbors(c *mc.Ctx) {
 		}
 		dbs[i] = st.db
 	}
-	c.Op("[rescale 1->%d, %d key groups; old operator %s; %s]", p.n, p.groups, map[bool]string{true: "redeployed as op0", false: "process gone"}[sameProcess], strings.Join(modes, "; "))
+	prevGen = nil // the redeploy replaced the operator's database
+	c.Op("[rescale 1->%d, %d key groups; old operator %s%s; %s]", p.n, p.groups, map[bool]string{true: "redeployed as op0", false: "process gone"}[sameProcess],
+		map[bool]string{true: " after an earlier restore from the same checkpoint", false: ""}[hadPrevGen], strings.Join(modes, "; "))
 	jobCkpt := uint64(1)
 	jobOldest := uint64(1) // oldest checkpoint id the job still retains (it announces [newest] to operators one by one)
 	stuck := false
@@ -362,7 +380,7 @@ func neighbors(c *mc.Ctx) {
 		}
 		sort.Strings(names)
 		var sb strings.Builder
-		fmt.Fprint(&sb, modes, sameProcess, rel(fmt.Sprint(names)), jobCkpt, jobOldest, dirty, stuck, bursts)
+		fmt.Fprint(&sb, modes, sameProcess, hadPrevGen, rel(fmt.Sprint(names)), jobCkpt, jobOldest, dirty, stuck, bursts)
 		for _, st := range ops {
 			for _, h := range st.retained {
 				fmt.Fprint(&sb, " ", h.id)
